@@ -121,7 +121,7 @@ def native_watchdog(k, inputs, rdir):
     src = engine.replay_source(k, inputs)
     cpp = os.path.join(rdir, 'replay.cpp'); exe = os.path.join(rdir, 'replay.bin')
     open(cpp, 'w').write(src)
-    flags = [f for f in gen.flags_for(k.arch) if not f.startswith('-I')] + ['-I' + gen.REPO + '/include']
+    flags = [f for f in gen.native_flags(k.arch) if not f.startswith('-I')] + ['-I' + gen.REPO + '/include']
     open(os.path.join(rdir, 'run.sh'), 'w').write('#!/bin/sh\n# exits 124 when the call does not return within 10 s\ncd "$(dirname "$0")" && %s %s replay.cpp -o replay.bin && timeout 10 ./replay.bin\n' % (gen.CLANG, ' '.join(flags)))
     os.chmod(os.path.join(rdir, 'run.sh'), 0o755)
     p = subprocess.run([gen.CLANG] + flags + [cpp, '-o', exe], capture_output=True, text=True)
